@@ -506,9 +506,12 @@ func baseOf(f []byte) baseInfo {
 
 // monitor for a modified image: the session either fails or hands out exactly what the
 // original hands out (same bytes, same format version and compression type)
-func checkModified(id, what string, base baseInfo, f []byte, reads []int, s session, st *vh.Stats) {
+func checkModified(id, what string, bit int, base baseInfo, f []byte, reads []int, s session, st *vh.Stats) {
 	if !base.genuine {
 		return
+	}
+	if bit >= 0 && bit < 64 {
+		what = "header-length-escape: " + what
 	}
 	orig := readSession(f, reads)
 	// format version 1 verifies the payload checksum in Close only (panic): bytes handed
@@ -566,7 +569,7 @@ func runRF(id string, ops []string, st *vh.Stats) string {
 			}
 			s := readSession(g, []int{n, 1})
 			toks = append(toks, "fo:"+s.str)
-			checkModified(id, fmt.Sprintf("bit %d flipped", b), base, file, []int{n, 1}, s, st)
+			checkModified(id, fmt.Sprintf("bit %d flipped", b), b, base, file, []int{n, 1}, s, st)
 			st.Count("rf-flip-read")
 			if s.failed {
 				st.Count("rf-flip-read-detected")
@@ -581,7 +584,11 @@ func runRF(id string, ops []string, st *vh.Stats) string {
 			v := verdict(g, ints(f[2]))
 			toks = append(toks, "fv:"+v)
 			if base.genuine && v == "A" && !(b/8 >= base.pad && b/8 < 1024) {
-				st.Violation(id, fmt.Sprintf("validator: stream with bit %d flipped accepted (chunking %s)", b, f[2]))
+				tag := ""
+				if b < 64 {
+					tag = "header-length-escape: "
+				}
+				st.Violation(id, fmt.Sprintf("validator: %sstream with bit %d flipped accepted (chunking %s)", tag, b, f[2]))
 			}
 			st.Count("rf-flip-validate")
 		case "to":
